@@ -46,12 +46,20 @@ def main():
             out["pinned"] = r.stdout.strip()[-200:]
             out["pinned_ok"] = r.returncode == 0
         if a.demo:
-            env = dict(os.environ, MIR_EVAL_REPO=wt)
-            r1 = sh([sys.executable, os.path.abspath(a.demo)], env=env, cwd=scratch)
-            env0 = dict(os.environ, MIR_EVAL_REPO="/repo")
-            r0 = sh([sys.executable, os.path.abspath(a.demo)], env=env0, cwd=scratch)
-            out["demo_with_change"] = r1.returncode
-            out["demo_clean"] = r0.returncode
+            # single-threaded BLAS: demonstrations that call BSS-eval stall for hours
+            # on a loaded machine otherwise
+            one = {"OMP_NUM_THREADS": "1", "OPENBLAS_NUM_THREADS": "1", "MKL_NUM_THREADS": "1"}
+            env = dict(os.environ, MIR_EVAL_REPO=wt, **one)
+            env0 = dict(os.environ, MIR_EVAL_REPO="/repo", **one)
+            try:
+                r1 = sh([sys.executable, os.path.abspath(a.demo)], env=env, cwd=scratch,
+                        timeout=1200)
+                r0 = sh([sys.executable, os.path.abspath(a.demo)], env=env0, cwd=scratch,
+                        timeout=1200)
+                out["demo_with_change"] = r1.returncode
+                out["demo_clean"] = r0.returncode
+            except subprocess.TimeoutExpired:
+                out["demo_with_change"] = out["demo_clean"] = "timeout"
         env = dict(os.environ, MIR_EVAL_REPO=wt, VERIF_OUT=os.path.join(scratch, "out"),
                    VERIF_SEED=a.seed)
         caught = {}
